@@ -2799,6 +2799,10 @@ def make_ext_modules(I):
                 if I.class_lookup(e.cls, hook)[0] is not None:
                     raise Unsupported("copy.copy of an object with %s" % hook)
             attrs = dict(e.attrs)
+            if "__list__" in attrs:
+                # copy.copy of a list subclass instance: copyreg rebuilds it from its items - a NEW list payload with the same
+                # elements (the two instances must not share one payload)
+                attrs["__list__"] = st.alloc(ListE(list(st.get(attrs["__list__"]).items)))
             if "__dictdata__" in attrs:
                 # copy.copy of a dict subclass instance: a new mapping with the same entries (copyreg: dictitems)
                 attrs["__dictdata__"] = st.alloc(DictE(dict(st.get(attrs["__dictdata__"]).items)))
@@ -2927,7 +2931,14 @@ def make_ext_modules(I):
                     S[0].get(new).items = items
                 return new
             if isinstance(v, tuple):
-                return tuple(dc(x) for x in v)
+                # copy._deepcopy_tuple: a tuple whose items are all returned unchanged (immutable content) IS its own deep
+                # copy - the same object, not an equal one; a namedtuple is rebuilt as a namedtuple
+                items = [dc(x) for x in v]
+                if all(c is x for c, x in zip(items, v)):
+                    return v
+                if isinstance(v, M.NamedTuple):
+                    return M.NamedTuple(items, v.fields, v.clsval)
+                return tuple(items)
             if isinstance(v, ObjDict):
                 # deepcopy(obj.__dict__): a plain dict holding deep copies of the instance attributes
                 return S[0].alloc(DictE({kk: dc(x) for kk, x in v.attrs(S[0]).items()}))
